@@ -6,19 +6,19 @@ HERE = os.path.dirname(os.path.dirname(os.path.abspath(__file__)))
 # id: (built, category, technique, text, note, design_ref)
 C = {
  "C01": (True, "exploration", "reference-model monitor (ordered map) over exhaustive small scopes, boundary-directed and random builds; decoder-derived structural coverage",
-   "Every build (all subsets of {a,b}^<=3 x value styles x 6 cache geometries via hook H1, fan-out palette, a fan-out x output-width grid, all 256 bytes, keys of 15..70000 bytes and one 17 MB key forcing 4-byte deltas, dense product sets, values solved to collide in the node cache's 64-bit digest, a hostile short-write sink, Default containers, corpora, random and bulk maps; thorough: one FST > 4 GiB) is reopened and streamed through every enumeration API and compared element-wise with the inserted map. Held-on-what-was-run, with exhaustive coverage of the small scopes in which the builder's case distinctions live.",
+   "Every build (all subsets of {a,b}^<=3 x value styles x 6 cache geometries via hook H1, fan-out palette, a fan-out x output-width grid, all 256 bytes, keys of 15..70000 bytes and one 17 MB key forcing 4-byte deltas, dense product sets, values solved to collide in the node cache's 64-bit digest, a hostile short-write sink, raw builders driven through every mixture of add / insert / extend_iter / extend_stream and repeated add, builders with rejected calls in between, Default containers, corpora, random and bulk maps, and history scenarios - series of 1500 small builds on one thread with abandoned builders in between, half-filled builders migrating between threads; thorough: one FST > 4 GiB) is reopened and streamed through every enumeration API and compared element-wise with the inserted map. Held-on-what-was-run, with exhaustive coverage of the small scopes in which the builder's case distinctions live.",
    "Trusts the harness' ordered-map model and generators; structural coverage classes come from the independent decoder; not a proof for all inputs.", "DESIGN.md#c01"),
  "C02": (True, "exploration", "reference-model monitor: point lookups vs ordered map, probe classes from the independently decoded node graph",
-   "Every key, every proper prefix, one-byte extensions, all 256 continuations at wide nodes and the root, +-1 substitutions at every position, empty and random probes through raw/Map/Set get/contains_key/contains on the shared case pool; ~10^8 probes per quick run.",
+   "Every key, every proper prefix, one-byte extensions, all 256 continuations at wide nodes and the root, +-1 substitutions at every position, empty and random probes through raw/Map/Set get/contains_key/contains on the shared case pool, on Default containers and container conversions, and on the FSTs of the history scenarios; ~10^8 probes per quick run.",
    "Model = binary search on the inserted sequence; coverage classes are decoder-derived.", "DESIGN.md#c02"),
  "C03": (True, "exploration", "reference-model monitor (range filter) + online invariant monitor on hooked stream state (H3 lock step)",
    "All (none|ge|gt) x (none|le|lt) x bound-pair queries over a bound universe incl. absent strings, prefixes, extensions, +-1 mutations and inverted ranges on exhaustive small FSTs, deep random maps and corpora; output compared with the model filter; after construction and after every next() the hooked DFS stack and key buffer must be in lock step; repeated-bound 'last setting wins'.",
    "Bound classes are decided from inputs alone; hook H3 is read-only.", "DESIGN.md#c03"),
  "C04": (True, "exploration", "reference-model monitor (independent DFA run per key) + online invariant monitor on hooked per-frame automaton state (H3); hint-weakening metamorphic coverage",
-   "All DFAs with <=2 states over 2 byte classes x all sound hint assignments, sampled/random larger DFAs with weakened hints, shipped automata and combinators (incl. Levenshtein, regex-automata DFAs) x FST sets x bound combinations; results, reported states and every hooked stack frame are compared with an independent run of the automaton.",
+   "All DFAs with <=2 states over 2 byte classes x all sound hint assignments, sampled/random larger DFAs with weakened hints, shipped automata and combinators (incl. Levenshtein, regex-automata DFAs) x FST sets x bound combinations; results, reported states and every hooked stack frame are compared with an independent run of the automaton; a traversal that never returns is reported by the non-termination monitor (thread CPU time inside one guarded operation).",
    "Generated automata obey the contract by construction (sound hints proven on the explicit graph, no accept_eof).", "DESIGN.md#c04"),
  "C05": (True, "exploration", "reference-model monitor: set algebra on model sets incl. per-key (index,value) multisets",
-   "All k-tuples (k<=4) of subsets of a small universe x 4 operations x raw/map/set OpBuilder APIs with rotated stream kinds (FST, range, search, user stream, same FST twice), sampled larger k (up to 13 streams), tuples behind a 70-byte common prefix, run-structured tuples (solo runs of 1..100 keys ended by shared keys under smaller/equal/larger values), random large maps, and is_disjoint/is_subset/is_superset on all pairs.",
+   "All k-tuples (k<=4) of subsets of a small universe x 4 operations x raw/map/set OpBuilder APIs with rotated stream kinds (FST, range, search, user stream, same FST twice), sampled larger k (up to 13 streams), tuples behind a 70-byte common prefix, run-structured tuples (solo runs of 1..100 keys ended by shared keys under smaller/equal/larger values), one operation set over more than 66000 streams, random large maps, and is_disjoint/is_subset/is_superset on all pairs.",
    "IndexedValue order within a key is unspecified and compared as a sorted multiset.", "DESIGN.md#c05"),
  "C06": (True, "exploration", "sequential-model monitor over exhaustive short call histories and random long ones",
    "All 9331 call sequences of length <=5 over 6 keys x 4 step-wise front ends and 10 bulk front ends: each call result (variant and payload), bytes_written stability on rejection, and the finished content are compared with a 10-line model; every sequence is additionally replayed on ONE builder under every segmentation into single inserts and bulk calls, so calls following a bulk call that stopped at a rejection are judged too.",
@@ -27,43 +27,43 @@ C = {
    "For each FST every single-short-write position, every single-Interrupted position, caps 1..16, scripts, random schedules and container sinks; sink bytes must equal the in-memory build, reopen, verify and carry the reference CRC; bytes_written() is compared with the sink's accepted-byte counter after every call, including the call that fails when a capacity-limited sink fills up in the middle of a logical write.",
    "Sinks follow the io::Write contract.", "DESIGN.md#c07"),
  "C08": (True, "fault_enumeration", "exhaustive single-byte corruption enumeration + bit-wise reference CRC oracle + synthetic-length sweep of the checksum fast path + subprocess monitor of the command line gate `fst verify`",
-   "Every offset x every other byte value on small FSTs (never 'opens and verifies'), sampled bit flips on corpus FSTs, reference masked CRC-32C on every built FST incl. hostile chunking, synthetic images of every length 36..4200 covering all slice-by-16 tail lengths, and `fst verify` (subprocess) over freshly built files and over argument lists in which one file - first, middle or last - is a single-byte mutant.",
+   "Every offset x every other byte value on small FSTs (never 'opens and verifies'), sampled bit flips on corpus FSTs, reference masked CRC-32C on every built FST incl. hostile chunking, synthetic images of every length 36..4200 covering all slice-by-16 tail lengths, verdicts that must not carry over (verify, swap the data through map_data or underneath a two-generation container, verify again), images of 4-16 MiB, and `fst verify` (subprocess) over freshly built files and over argument lists in which one file - first, middle or last - is a single-byte mutant.",
    "Multi-byte bursts are not judged (2^-32 collisions are legitimate).", "DESIGN.md#c08"),
  "C09": (True, "exploration", "independent on-disk format decoder + bit-wise reference CRC as runtime oracle over all built artifacts",
-   "Every artifact of the shared case pool is parsed by a decoder written from the format description only (never the crate's reader): header, footer, node layouts, backward pointers, exact tiling, root last, checksum, decoded map == inserted map.",
+   "Every artifact of the shared case pool is parsed by a decoder written from the format description only (never the crate's reader): header, footer, node layouts, backward pointers, exact tiling, root last, checksum, decoded map == inserted map; also every file written in the history scenarios and by builders after rejected calls.",
    "The 63-entry common-input table is pinned format data; compactness policy is recorded, not judged.", "DESIGN.md#c09"),
  "C10": (True, "exploration", "independent reference encoder for format versions 1-3 (self-checked by the independent decoder) + committed golden files; reader queried against the encoded model",
-   "~2400 models x versions {1,2,3} x 2 output distributions/node-form policies, opened in 9 container kinds (Vec, slice, Cow, Box, Arc newtype, mmap, map_data, Map/Set) and put through a full query battery incl. cross-version set operations; 40 golden files; header sweep for the required error classes.",
+   "~2400 models x versions {1,2,3} x 2 output distributions/node-form policies, opened in 9 container kinds (Vec, slice, Cow, Box, Arc newtype, mmap, map_data, Map/Set) and put through a full query battery incl. an enumeration through the low-level node interface and cross-version set operations; containers whose data is swapped through map_data for different well-formed bytes of equal length (other content, other version); 40 golden files; header sweep for the required error classes incl. version numbers that only look supported after truncation.",
    "Inputs both too short and of unsupported version may report either error; encoder output is validated by the decoder before use.", "DESIGN.md#c10"),
  "C11": (True, "fault_enumeration", "event-log monitor on fault-injecting sinks: every write-call index x error kinds (incl. io::Errors with structured payloads) / zero-length accept / flush failure, directly and through BufWriter",
-   "The sink logs which builder call was in progress when the injected fault happened; that call must return Err(Io) (no panic, no Ok, no other error); sessions that never reach the fault must deliver and flush every byte.",
+   "The sink logs which builder call was in progress when the injected fault happened; that call must return Err(Io) (no panic, no Ok, no other error); sessions that never reach the fault must deliver and flush every byte; faults at the start and in the middle of a logical write, device-full sinks, structured error payloads, an output above 64 KiB.",
    "Interrupted is a retry request (C07); behaviour after an I/O error is not judged.", "DESIGN.md#c11"),
  "C12": (True, "exploration", "hooked premise (cache eviction counter H2) + independent trie/minimal-DFA oracle on the decoded node graph",
-   "For every build: nodes <= trie nodes; when the hooked counters show no eviction: no two reachable nodes share a signature and sets have exactly the minimal DFA's state count; corpora must realise > 50% of achievable sharing (measured 0.78-0.96).",
+   "For every build: nodes <= trie nodes; when the hooked counters show no eviction: no two reachable nodes share a signature and sets have exactly the minimal DFA's state count; corpora must realise > 50% of achievable sharing (measured 0.78-0.96); also builders filled side by side on one thread.",
    "'No eviction' is observed through the cfg-guarded counters; 'most' is read as > 0.5.", "DESIGN.md#c12"),
  "C13": (True, "exploration", "allocation monitor: counting global allocator around builds streaming to io::sink() at growing N",
    "Peak live heap stays below an a-priori constant from geometry/fan-out/key length, does not move by more than 2% between N=10^6 and 10^7 (3*10^7 thorough), nothing is retained after finish; several geometries via hook H1.",
    "Decides the bounded restatement (scales up to 3*10^7), not 'for all N'.", "DESIGN.md#c13"),
  "C14": (True, "exploration", "allocation monitor: counting global allocator around traversals, set operations and lookups at growing N",
-   "Peak heap (the allocation count is recorded as evidence) of stream/range/search/set-ops (k up to 8) - including operations whose single next() call has to skip ~N candidates (disjoint intersections, cancelling differences, Set relations) - are independent of N in {10^4,10^5,10^6(,10^7)} and under a fixed small constant; open-over-borrowed/mmap + 10^5 lookups allocate exactly 0 times.",
+   "Peak heap (the allocation count is recorded as evidence) of stream/range/search/set-ops (k up to 8) - including operations whose single next() call has to skip ~N candidates (disjoint intersections, cancelling differences, Set relations) - are independent of N in {10^4,10^5,10^6(,10^7)} and under a fixed small constant; open-over-borrowed/mmap + 10^5 lookups allocate exactly 0 times, also on a 69 MB FST; {:?} formatting of a Map/Set is measured as an enumeration.",
    "Bounded restatement; constants fixed a priori.", "DESIGN.md#c14"),
  "C15": (True, "exploration", "differential monitor: byte equality across API paths, sinks, repeated runs, 16 concurrent threads and child processes",
    "Each sequence is built through up to 25 paths (all front ends, unions of partial FSTs streamed into a builder, sinks) and must be byte-identical; cross-thread and cross-process digests incl. tiny cache geometries where evictions occur.",
    "Determinism is judged per cache geometry.", "DESIGN.md#c15"),
  "C16": (True, "exploration", "reference-model monitor: inverse map oracle over exhaustive small monotone maps",
-   "All subsets of {a,b}^<=3 x 6 strictly increasing value shapes (with/without the empty key, zero/non-zero first value), corpora and random monotone maps; every stored value, +-1, extremes and random values through get_key and get_key_into (prefix-preserving).",
+   "All subsets of {a,b}^<=3 x 6 strictly increasing value shapes (with/without the empty key, zero/non-zero first value), corpora and random monotone maps; every stored value, +-1, extremes and random values through get_key and get_key_into (prefix-preserving); maps also come from builders that were offered repeated and rejected keys in between.",
    "Non-monotone maps are outside the statement.", "DESIGN.md#c16"),
  "C17": (True, "exploration", "reference-model monitor: scalar-value edit distance oracle over an exhaustive multi-byte alphabet scope",
    "All q in A^<=3 x d<=2 x all k in A^<=3 over an alphabet with 1-4 byte scalars sharing 1/2/3 lead bytes (1.03M triples), Set::search per (q,d), random wide-Unicode strings, three further exhaustive boundary alphabets, one automaton with > 65536 states, and new_with_limit series (payload, monotonicity, behaviour, number of distinct reachable states counted through the public interface).",
    "Keys are valid UTF-8.", "DESIGN.md#c17"),
  "C18": (True, "exploration", "reference language algebra: textbook-constructed reference DFA with exact reachability sets vs the real combinators driven byte by byte",
-   "~67k expressions (all leaves incl. every <=2-state component DFA with every sound hint assignment, unary/binary/depth-2/3 compositions) x all short strings + a representative of every reference state: is_match == membership, can_match false only in dead states, will_always_match true only in all-accepting states.",
+   "~67k expressions (all leaves incl. every <=2-state component DFA with every sound hint assignment, unary/binary/depth-2/3 compositions) x all short strings + a representative of every reference state: is_match == membership, can_match false only in dead states, will_always_match true only in all-accepting states; patterns of 31..257 bytes driven by two-point perturbations and guided walks; automata built over one re-used query buffer.",
    "Component hints are sound by construction (the statement's premise); a brute-force third definition cross-checks the oracle.", "DESIGN.md#c18"),
  "C19": (True, "exploration", "subprocess monitor of the real fst binary with seeded delay injection (hook H4), offline merge-tree trace checker, model-merge oracle; ThreadSanitizer and valgrind memcheck runs (thorough)",
-   "Hundreds (thorough: thousands) of runs of `fst set|map` over 13 input shapes x batch sizes x fd limits x thread counts x merge modes under seeded delays; exit status, verify(), keys, merged values and byte identity with a sorted build are judged; the hooked trace yields the merge tree, and the evidence reports how many distinct trees / worker assignments were observed (213 quick, ~2000 thorough); thorough adds 200 TSan and 30 memcheck runs.",
+   "Hundreds (thorough: thousands) of runs of `fst set|map` over 13 input shapes x batch sizes x fd limits x thread counts x merge modes under seeded delays; exit status, verify(), keys, merged values and byte identity with a sorted build (library build and the command line's own --sorted --force build, also over a longer existing file) are judged; the hooked trace yields the merge tree, and the evidence reports how many distinct trees / worker assignments were observed (213 quick, ~2000 thorough); thorough adds 200 TSan and 30 memcheck runs.",
    "Interleavings are sampled, not enumerated; keys need no CSV quoting; a subprocess watchdog is inconclusive.", "DESIGN.md#c19"),
  "C20": (True, "exploration", "catch_unwind totality monitor in a release and an overflow-checked build + Miri (undefined-behaviour interpreter) over 16 shards; auxiliary non-runtime forbid(unsafe_code) compile gate",
-   "1.3M (thorough 20M) hostile images (boundary header/footer sweep, random strings, truncations/mutations/extensions of valid FSTs) through open + accessors + verify in two build profiles; Miri interprets the same gate plus bounded traversals of mutated FSTs (panic allowed, UB not) and miniature valid-input operations.",
+   "1.3M (thorough 20M) hostile images (boundary header/footer sweep, random strings, truncations/mutations/extensions of valid FSTs) through open + accessors + verify in two build profiles; Miri interprets the same gate plus bounded traversals of mutated FSTs (panic allowed, UB not) and miniature valid-input operations; the command line gate `fst verify` must end with a verdict (exit 0/1) on several hundred hostile files.",
    "root()/node()/traversals may panic on malformed data; the syntactic 'no unsafe' clause is only covered by the declared auxiliary compile gate; Miri/tool failures are inconclusive.", "DESIGN.md#c20"),
 }
 TODO = ["C02","C03","C04","C05","C06","C07","C08","C10","C11","C12","C13","C14","C15","C16","C17","C18","C19","C20"]
@@ -99,9 +99,8 @@ m = {
  ],
  "checks": checks,
  "not_applicable": na,
- "notes": "Verdicts are three-valued: exit 0 held on everything explored, exit 1 with a VIOLATION line, exit 2 INCONCLUSIVE (build failure, watchdog, coverage floor missed) which never prints a VIOLATION line. VERIF_SEED selects the random streams. Known findings / fixed defects: /verif/known-findings.txt.",
+ "notes": "Process-level monitors shared by the checks that use worker threads: a non-termination monitor (a worker that burns 240 s / 3 h of its own CPU time inside one guarded operation is reported as does-not-terminate), a runaway-memory monitor (ceiling on the live heap of the monitor process), and history noise (judged operations are interleaved with unrelated library use on the same thread). Verdicts are three-valued: exit 0 held on everything explored, exit 1 with a VIOLATION line, exit 2 INCONCLUSIVE (build failure, watchdog, coverage floor missed) which never prints a VIOLATION line. VERIF_SEED selects the random streams. Known findings / fixed defects: /verif/known-findings.txt.",
 }
-if not na: del m["not_applicable"]
 json.dump(m, open(os.path.join(HERE, "MANIFEST.json"), "w"), indent=1)
 try:
     import jsonschema
